@@ -166,8 +166,10 @@ void prop_C01(void)
         if (memcmp((char *)bval + vt->esize * ((size_t)k * ldb + i), (char *)b0 + vt->esize * ((size_t)k * ldb + i), vt->esize))
             verdict_fail("oracle:B_padding_modified", "row %d >= n of B (leading dimension padding) was modified", i);
     char msg[400]; double worst = 0;
-    if (check_residual(vt, &F, x.D, x.perm_r, x.perm_c, x.M->stype ? 1 : 0, bval, ldb, b0, ldb, nrhs, &worst, msg, sizeof msg))
-        verdict_fail("oracle:residual_bound", "%s", msg);
+    if (check_residual(vt, &F, x.D, x.perm_r, x.perm_c, x.M->stype ? 1 : 0, bval, ldb, b0, ldb, nrhs, &worst, msg, sizeof msg)) {
+        /* a non-finite X is legitimate when the matrix is singular to working precision (overflow in the back substitution) */
+        if (strstr(msg, "is not finite")) { ld g, mp; if (!ref_nonsingular(vt, &F, &g, &mp)) verdict_skip("non-finite X on a matrix that is singular to working precision (min pivot/amax %.2Le)", mp); }
+        verdict_fail("oracle:residual_bound", "%s", msg); }
     feat("resid_worst", worst);
     if (P_int("also_recon", 1)) { if (check_reconstruction(vt, &F, x.D, x.perm_r, x.perm_c, msg, sizeof msg)) verdict_fail("oracle:reconstruction_bound", "%s", msg); }
     verdict_pass();
